@@ -188,7 +188,27 @@ ADDED2 = {
     'C19': ' Manifest feature wiring (serde).',
     'C20': ' Manifest feature wiring; macros-only pairs in the quick tier.',
 }
+# ---- scope added in the fourth build session (DESIGN 12.11-12.13)
+ADDED3 = {
+    'C01': ' The call graph includes the call-backs of std machinery into hand-written impls of fmt::Write / Iterator / Hasher of workspace types.',
+    'C04': ' Macro witnesses.',
+    'C05': ' canonicalize is parse-then-print and nothing else (hence idempotent); the extension map reads back its own Display output, which starts with a separator (PARSE-SELFREAD).',
+    'C07': ' Macro witnesses.',
+    'C08': ' Macro witnesses.',
+    'C10': ' Macro witnesses; an external function that receives &mut access to an ordered collection makes its order unknown.',
+    'C12': ' Table obligations: a value produced by maximize / minimize is built from table integers, each must decode to canonical text and no stored language may be the text "und".',
+    'C13': ' Representation obligations of every constructor and conversion (a Locale carries an id in the one canonical representation).',
+    'C14': ' Macro witnesses.',
+    'C15': ' A literal handed to a subtag\'s unchecked constructor (also in const initialisers) must be canonical text of that subtag\'s production, never "und".',
+    'C16': ' PARSE-SELFREAD (the extension string locale! parses at run time starts with a separator); how the variant list is handed to the unchecked constructor (None / Some(sorted list)); manifest wiring of the macros feature; a witness workspace that does not build is a violation.',
+    'C17': ' PARSE-SELFREAD (Locale::into_parts hands out an extension string that starts with a separator).',
+    'C18': ' GEN-ENDIAN: every explicit byte-order conversion in the generator binaries uses the byte order of the library (the generators themselves are not run).',
+    'C19': ' Macro witnesses.',
+    'C20': ' Quick tier also compares likelysubtags -> all and serde -> all (a feature on top of the other); manifest wiring of the macros feature; macro witnesses.',
+}
 for _k, _v in ADDED2.items():
+    ADDED[_k] = ADDED.get(_k, '') + _v
+for _k, _v in ADDED3.items():
     ADDED[_k] = ADDED.get(_k, '') + _v
 
 
@@ -233,7 +253,9 @@ def main():
         ],
         'checks': checks,
         'not_applicable': na,
-        'notes': 'Static analysis only: no check runs the library or a solver. See DESIGN.md.',
+        'notes': 'Static analysis only: no check runs the library or a solver. Both tiers decide every property (except C16 / C20, which build their own configurations) '
+                 'twice, over its declared configurations and over the all-features workspace build; an obligation holds iff it holds in both passes. Errors inside the analysis '
+                 '(explorer budgets, unexpected MIR shapes) fail closed as INCONCLUSIVE violations (exit 1); exit 2 only when /repo does not compile under the analysis toolchain. See DESIGN.md section 12.',
     }
     with open(os.path.join(HERE, 'MANIFEST.json'), 'w') as f:
         json.dump(m, f, indent=1)
